@@ -56,6 +56,10 @@ func (r *recorder) emit(ev map[string]any) {
 	r.mu.Lock()
 	defer r.mu.Unlock()
 	r.n++
+	if abs, ok := ev["lin"].(int); ok && abs > 0 {
+		// a parked store call: how many lines back from this event it parked (independent of where a trace is cut for validation)
+		ev["lin"] = r.n - abs
+	}
 	b, err := json.Marshal(ev)
 	if err != nil {
 		panic(err)
